@@ -474,7 +474,13 @@ class Engine:
                 lo, hi = (-(1 << (bits - 1)), (1 << (bits - 1)) - 1) if ty.startswith('i') else (0, (1 << bits) - 1)
                 return Agg([r, not (lo <= r <= hi)], 'tup')
             if op == 'Not':
-                a = self.operand(fr, inner); return (not a) if isinstance(a, bool) else (z3.Not(a) if z3.is_bool(a) else ~a)
+                a = self.operand(fr, inner)
+                if isinstance(a, bool): return not a
+                if z3.is_expr(a): return z3.Not(a) if z3.is_bool(a) else ~a
+                ty = self.ty_of(fn, inner) or 'usize'                    # bitwise complement of a machine integer: width-aware
+                if ty.startswith('i'): return ~a
+                bits = 64 if ty.endswith('size') else int(re.sub(r'\D', '', ty) or 64)
+                return (~a) & ((1 << bits) - 1)
             if op == 'Neg': return -self.operand(fr, inner)
             if op == 'PtrMetadata':
                 a = self.operand(fr, inner)
